@@ -7,7 +7,7 @@ JUDGED = {"vars", "scan_count", "match_count", "final_vars", "final_match_count"
 
 def main(tier):
     n = 2000 if tier == "quick" else 20000
-    return runfam.run(PID, tier, groups=("core", "stateful", "print"), judged=JUDGED, ncases=n, seed_salt=7919, pre=lambda rep: (mcrun.run_pool(rep, tier, {"vars", "matchCount", "scanCount", "printed"}, PID), repotraces.run(rep, tier, JUDGED, PID)))
+    return runfam.run(PID, tier, groups=("core", "stateful", "print", "assignq"), judged=JUDGED, ncases=n, seed_salt=7919, pre=lambda rep: (mcrun.run_pool(rep, tier, {"vars", "matchCount", "scanCount", "printed"}, PID), repotraces.run(rep, tier, JUDGED, PID)))
 
 
 def replay(path):
